@@ -15,6 +15,7 @@ ENGINES = {
     'round': ('harness.round_checks', ['C12']),
     'dict': ('harness.dict_checks', ['C03']),
     'persist': ('harness.persist_checks', ['C04']),
+    'fs': ('harness.fs_checks', ['C13', 'C14']),
 }
 
 
